@@ -563,31 +563,70 @@ def pure_ic_rule(repo, rep):
                     taint[cls] = taint.get(cls, set()) | new
                     changed = True
 
-        def tested_sets(target):
-            """taints of the collections whose membership decides the elements of the comprehension assigned to `target`."""
-            out = []
-            for n in nodes:
-                if isinstance(n, ast.Assign) and isinstance(n.targets[0], ast.Name) and n.targets[0].id == target:
-                    for x in ast.walk(n.value):
-                        if isinstance(x, ast.Compare) and isinstance(x.ops[0], (ast.In, ast.NotIn)):
-                            s = set()
-                            for y in ast.walk(x.comparators[0]):
-                                if isinstance(y, ast.Name):
-                                    s |= taint.get(find(y.id), set()) | ({y.id} & PARAMS)
-                            out.append((s, n))
-            return out
-        ys = tested_sets("Y0")
-        oky = bool(ys) and all(s == {"initial_infecteds"} for s, _ in ys)
-        rep.ob("ICP", oky, "%s: Y0 marks exactly the initially infected nodes" % name, func=f, node=ys[0][1] if ys else f.node,
-               construct="Y0 membership set derives from %s" % sorted(ys[0][0] if ys else []),
-               detail="" if oky else "the set tested for Y0 also receives %s (directly or through an alias that is extended in place)"
-               % sorted((ys[0][0] if ys else set()) - {"initial_infecteds"}))
+        env = {}
+        for n in nodes:
+            if isinstance(n, ast.Assign) and len(n.targets) == 1 and isinstance(n.targets[0], ast.Name):
+                env.setdefault(n.targets[0].id, []).append(n.value)
+
+        def taint_of(e):
+            sset = set()
+            for y in ast.walk(e):
+                if isinstance(y, ast.Name):
+                    sset |= taint.get(find(y.id), set()) | ({y.id} & PARAMS)
+            return frozenset(sset)
+
+        def indicator(e, depth=0):
+            """[(taint of the tested set, value for members, value for non-members)] for every way e can be computed;
+            None when e is not an indicator expression this rule understands."""
+            if depth > 6:
+                return None
+            if isinstance(e, ast.Name):
+                vals = env.get(e.id)
+                if not vals:
+                    return None
+                out = []
+                for v in vals:
+                    r = indicator(v, depth + 1)
+                    if r is None:
+                        return None
+                    out += r
+                return out
+            if isinstance(e, ast.Call) and (attr_chain(e.func) or "") in ("np.array", "np.asarray", "numpy.array", "list") and e.args:
+                return indicator(e.args[0], depth + 1)
+            if isinstance(e, ast.BinOp) and isinstance(e.op, ast.Sub) and isinstance(e.left, ast.Constant) and e.left.value == 1:
+                r = indicator(e.right, depth + 1)
+                return None if r is None else [(t, 1 - a, 1 - b2) for t, a, b2 in r]
+            if isinstance(e, (ast.ListComp, ast.GeneratorExp)) and isinstance(e.elt, ast.IfExp) and isinstance(e.elt.test, ast.Compare) \
+                    and len(e.elt.test.ops) == 1 and isinstance(e.elt.test.ops[0], (ast.In, ast.NotIn)) \
+                    and isinstance(e.elt.body, ast.Constant) and isinstance(e.elt.orelse, ast.Constant):
+                a, b2 = e.elt.body.value, e.elt.orelse.value
+                if isinstance(e.elt.test.ops[0], ast.NotIn):
+                    a, b2 = b2, a
+                return [(taint_of(e.elt.test.comparators[0]), a, b2)]
+            return None
+
+        def defs_of(target):
+            return [n for n in nodes if isinstance(n, ast.Assign) and isinstance(n.targets[0], ast.Name) and n.targets[0].id == target]
+        # what is handed on as Y0 / X0 (the wrappers end in a call that passes them by keyword or position)
+        ysem = indicator(ast.Name(id="Y0", ctx=ast.Load()))
+        oky = bool(ysem) and all(t == frozenset({"initial_infecteds"}) and a == 1 and b2 == 0 for t, a, b2 in ysem)
+        yd = defs_of("Y0")
+        rep.ob("ICP", oky, "%s: Y0 marks exactly the initially infected nodes" % name, func=f, node=yd[0] if yd else f.node,
+               construct="Y0 indicator: %s" % ([(sorted(t), a, b2) for t, a, b2 in ysem] if ysem else "not recognised"),
+               detail="" if oky else ("Y0 is not the 0/1 indicator of initial_infecteds: %s" % (
+                   [(sorted(t), "in->%s" % a, "out->%s" % b2) for t, a, b2 in ysem] if ysem else
+                   "its definition is not an indicator comprehension over a set (directly, through np.array or 1 - ...)")))
         if "initial_recovereds" in f.all_params:
-            xs = tested_sets("X0")
-            okx = bool(xs) and all(s == PARAMS for s, _ in xs)
+            xsem = indicator(ast.Name(id="X0", ctx=ast.Load()))
+            okx = bool(xsem) and all((t == frozenset(PARAMS) and a == 0 and b2 == 1) or
+                                     (t == frozenset({"initial_infecteds"}) and a == 0 and b2 == 1 and len(xsem) > 1) for t, a, b2 in xsem) \
+                and any(t == frozenset(PARAMS) for t, a, b2 in xsem)
+            xd = defs_of("X0")
             rep.ob("ICP", okx, "%s: X0 excludes both the initially infected and the initially recovered nodes" % name, func=f,
-                   node=xs[0][1] if xs else f.node, construct="X0 membership set derives from %s" % sorted(xs[0][0] if xs else []),
-                   detail="" if okx else "the set tested for X0 derives from %s instead of both initial sets" % sorted(xs[0][0] if xs else []))
+                   node=xd[0] if xd else f.node,
+                   construct="X0 indicator: %s" % ([(sorted(t), a, b2) for t, a, b2 in xsem] if xsem else "not recognised"),
+                   detail="" if okx else "X0 is not the 0/1 indicator of `in neither initial set`: %s" % (
+                       [(sorted(t), "in->%s" % a, "out->%s" % b2) for t, a, b2 in xsem] if xsem else "definition not recognised"))
         lay = [n for n in nodes if isinstance(n, ast.Assign) and isinstance(n.targets[0], ast.Name) and n.targets[0].id in ("Y0", "X0")
                and any(isinstance(x, ast.comprehension) for x in ast.walk(n.value))]
         okl = bool(lay) and all(any(isinstance(x, ast.comprehension) and _k(x.iter) == "nodelist" for x in ast.walk(n.value)) for n in lay)
